@@ -163,8 +163,35 @@ def run_case(case: dict) -> dict:
         outcome = "ok"
         try:
             if op == "add_cfg":
-                model.add_device_configuration(fname("cfg"), num_devices=1 + b % 4)
+                if (c >> 3) % 6 == 4:
+                    # a request the documentation rejects: empty / already registered name, no device, mismatching names
+                    expect_reject = True
+                    w = World()
+                    w.reg(model)
+                    before = snapshot.snapshot(w, tensors=False)
+                    how = (c >> 7) % 4
+                    if how == 0:
+                        model.add_device_configuration("", num_devices=2)
+                    elif how == 1 and cfgs:
+                        model.add_device_configuration(cfgs[a % len(cfgs)].name, num_devices=2)
+                    elif how == 2:
+                        model.add_device_configuration(fname("cfg"), num_devices=0)
+                    else:
+                        model.add_device_configuration(fname("cfg"), num_devices=2, device_names=("only_one",))
+                    if how == 1 and not cfgs:
+                        continue
+                elif (c >> 3) % 6 == 5:
+                    model.add_device_configuration(fname("cfg"), device_names=tuple(f"d{k}" for k in range(1 + b % 3)))
+                else:
+                    model.add_device_configuration(fname("cfg"), num_devices=1 + b % 4)
             elif op in ("remove_cfg", "remove_cfg_name"):
+                if (c >> 3) % 7 == 5:
+                    # a configuration the model does not have (by name / by object)
+                    expect_reject = True
+                    w = World()
+                    w.reg(model)
+                    before = snapshot.snapshot(w, tensors=False)
+                    model.remove_device_configuration("no_such_configuration" if op == "remove_cfg_name" else ir.ModelConfiguration(name=cfgs[0].name if cfgs else "x", num_devices=1), cascade=True)
                 if not cfgs:
                     continue
                 cfg = cfgs[a % len(cfgs)]
